@@ -939,11 +939,15 @@ class Buffer(Iterable):
             return
         self._stopped.set()
         tasks = self._tasks
-        while not tasks.empty():
-            _ = tasks.get()
-        # `tasks` is now empty. The thread needs to put at most one
-        # more element into the queue, which is safe.
-        self._worker.join()
+        while True:
+            while not tasks.empty():
+                _ = tasks.get()
+            # The thread may still put up to three more elements into the queue
+            # (a data element, then the end or error markers), possibly more than
+            # the queue can hold; keep draining until the thread has exited.
+            self._worker.join(timeout=0.01)
+            if not self._worker.is_alive():
+                break
         self._stopped = None
 
     def __iter__(self):
